@@ -85,6 +85,7 @@ def run(ctx, rep):
     index_sites(F, rep)
     len_minus(ctx, F, rep)
     depth_bound(F, rep)
+    constant_index_is_converted_first(F, rep)
     rep.extra["analysis_rounds"] = fl.rounds
     rep.extra["hand_assembled_option_unwraps_counted_not_judged"] = getattr(fl, "uncounted", 0)
     # K4 panics outside the clause: counted
@@ -581,3 +582,33 @@ def depth_bound(F, rep):
            "the generated parser is one recursive component of %d functions, the AST builders, type checker and code generator recurse over its output "
            "(%d recursive components in the crate), and nothing limits depth: 1500 nested parentheses (3 kB) end in `thread main has overflowed its stack`"
            % (len(big), len(comps)), None, fn="compiler::parser::Parser", key="C16.depth|parser-recursion")
+
+
+
+def constant_index_is_converted_first(F, rep):
+    """Code generation converts a constant list / str index to `usize` again (`Index::compile`: `number.try_into()?`) and its callers unwrap
+    the result (`Block::compile`, `Callable::compile`): the only thing that keeps a negative or oversized constant index from becoming a
+    compiler panic is that the type checker performed the same conversion successfully first.  In TypeLayout::get_output_type_from_index
+    every Ok return of the list / str part (everything after the index's type was accepted by can_be_used_as_list_index) is therefore
+    dominated by the `Value::get_usize` conversion of the index."""
+    f = F.fn("compiler::ast::r#type::TypeLayout::get_output_type_from_index")
+    if f is None:
+        raise AnchorMissing("TypeLayout::get_output_type_from_index")
+    gate = f.calls_to("compiler::ast::r#type::TypeLayout::can_be_used_as_list_index")
+    conv = [c for c in f.calls() if c.callee().endswith("::get_usize")]
+    if not gate or not conv:
+        rep.ob("C16.index-const", "get_output_type_from_index converts a constant index before it answers", "undecided" if gate else "violated",
+               "can_be_used_as_list_index / get_usize calls not found", f.span, fn=f.path, key="C16.index-const")
+        return
+    after = set()
+    for g in gate:
+        if g.target is not None:
+            after |= f.reachable(g.target)
+    oks = [b for b in rules.ok_return_blocks(f) if b in after]
+    bad = [b for b in oks if not rules.call_dominates(f, conv, b)]
+    rep.floor("C16.index-const Ok returns of the list / str part of get_output_type_from_index", len(oks), 3)
+    rep.ob("C16.index-const", "for a list or str receiver the element type is answered only after the index went through get_usize",
+           "violated" if bad else "ok",
+           ("an Ok return (bb %s) is reachable without the conversion: `xs[-1]` on a `[T...]` list type-checks, the code generator's own conversion fails and its "
+            "caller unwraps the error (compiler panic inside a block or call argument)" % bad) if bad else "%d Ok returns, all behind the conversion" % len(oks),
+           conv[0].span, fn=f.path, key="C16.index-const")
